@@ -1449,6 +1449,22 @@ fn gen_search(rng: &mut Rng, hash_seed: u64, c11_ops: bool, with_negation: bool)
         ops.push(BOp::Query(g));
     }
     ops.push(BOp::Query(rng.below(3) as u8));
+    // C11, one history in 150 is LONG: the caller re-asserts an unrelated fact with a new value 70-110 times —
+    // every one a fact state the engine has not seen — asking the same query each time, then writes a premise
+    // and asks again (a memo table, an id space or a cache that only behaves differently after dozens of states)
+    if c11_ops && rng.chance(1, 150) {
+        let g = rng.below(3) as u8;
+        let mut long: Vec<BOp> = Vec::new();
+        for i in 0..70 + rng.below(41) {
+            long.push(BOp::AssertAux(i as u8));
+            long.push(BOp::Query(g));
+        }
+        long.push(gen_set(rng, true));
+        long.push(BOp::Query(g));
+        long.push(gen_set(rng, true));
+        long.push(BOp::Query(g));
+        ops = long;
+    }
     BwdTrace::Search {
         hash_seed,
         alt_hash_seeds: vec![rng.next_u64(), rng.next_u64(), rng.next_u64()],
@@ -1563,6 +1579,9 @@ impl World for BwdWorld {
                 let goals = &goals;
                 if types.contains(&Ty::Text) {
                     obs.count("probe.program_over_text_fields_with_string_operators");
+                }
+                if ops.len() > 100 {
+                    obs.count("probe.history_of_more_than_64_fact_states_on_one_engine");
                 }
                 run_search(prop, types, init, rules, goals, *max_depth, *strategy, (*max_solutions).max(1), *memo, *attach_rete, ops, alt_hash_seeds, obs)
             }
